@@ -430,6 +430,10 @@ def render(atoms, rng=None, layout='canon', comments=0.0, recase=None):
             else:
                 out.append(text)
         else:
+            # two atoms must never fuse into a comment opener: `-` + `-1` -> `--1`, `/` + `*`
+            prev = next((o for o in reversed(out) if o), '')
+            if prev and text and ((prev[-1] == '-' and text[0] == '-') or (prev[-1] == '/' and text[0] == '*')):
+                out.append(' ')
             out.append(text)
     return ''.join(out)
 
